@@ -20,7 +20,7 @@ ANCHORS = ['FactoredInference.estimate', 'FactoredInference.mirror_descent', 'Fa
            'FactoredInference.interior_gradient', 'GraphicalModel.project', 'GraphicalModel.datavector', 'GraphicalModel.mle',
            'GraphicalModel.belief_propagation']
 DECIDING = ['stored_vs_reinferred', 'answer_valid', 'answers_agree']
-ASSUMPTIONS = ['(a) 1e-7*total, (b) sums rtol min(1e-6, max(1e-9, 256*eps*max|parameter|)) and negatives >= -1e-12*total, (c) 1e-7*total',
+ASSUMPTIONS = ['(a) 1e-7*total, (b) sums rtol min(1e-4, max(1e-9, 256*eps*max|parameter|)) (answers of a model whose parameters reach 1e13 - one overshooting first step on measurements with noise 1e-6 - are only that accurate) and negatives >= -1e-12*total, (c) 1e-7*total',
                'RDA / IG are driven with projections of >= 2 cells and not with all-zero query matrices (scipy eigsh refuses a 1x1 operator and a zero operator); MD gets both']
 PLAN = {
     'quick': dict(cases=240, budget_s=120, case_timeout=300, min_cases=40),
@@ -101,7 +101,7 @@ def judge_model(ctx, model, attrs, shape, what=''):
     total = float(model.total)
     mx = estim.max_abs_potential(model)
     info = dict(max_abs_potential=mx)
-    sum_rtol = min(1e-6, max(1e-9, 256 * np.finfo(float).eps * (mx if np.isfinite(mx) else 1e308)))
+    sum_rtol = min(1e-4, max(1e-9, 256 * np.finfo(float).eps * (mx if np.isfinite(mx) else 1e308)))
     ctx.stat('max_abs_potential', mx if np.isfinite(mx) else 1e308)
     with np.errstate(all='ignore'):
         # (a) stored marginals are the marginals of the stored parameters
